@@ -834,6 +834,17 @@ theorem C05_skipInstance_suffix (s : IS) (r : LoopRes)
   have hr : r.s.m = r.s.rest.length + 1 := by simp [IS.m, hf]
   exact suffix_of_whole (skipInstance_keeps _ _ _ s r h) (by omega)
 
+/-- … and *which* offset: when `SkipInstance` reports success (`SEVERITY_NULL`), the stream is good and the byte right before the
+get pointer is a `;` of the original input — the input is `(bytes passed) ; (what is left)` — for any fuel, comment flag and
+stream state.  (The end of a record, as pass 1 and `ReadInstance`'s second scan find it, is a position behind a `;` of the file.) -/
+theorem C05_skipInstance_ends_behind_semicolon (cm : Bool) (iters fuel : Nat) (s : IS) (r : LoopRes)
+    (h : skipInstance cm iters fuel s = .ok r) (hsev : r.sev = sevNull) :
+    r.s.good = true ∧ ∃ ps : List Byte, s.whole = ps.reverse ++ chSemi :: r.s.rest := by
+  obtain ⟨ps, hp, hg⟩ := scanUntil_endsBehind chSemi cm iters fuel s 0 0 0 r (by decide) h hsev
+  refine ⟨hg, ps, ?_⟩
+  rw [← skipInstance_keeps cm iters fuel s r h]
+  simp [IS.whole, hp]
+
 /-- the same for `ReadTokenSeparator` (white space, comments, print control directives) -/
 theorem C05_readTokenSeparator_suffix (s : IS) (r : LoopRes)
     (h : readTokenSeparator C05.skipInstanceSkipsComments C05.readCommentIters (s.rest.length + 2) s = .ok r) (hf : r.s.fail = false) :
